@@ -59,8 +59,20 @@ def ow (s : State) : List PollRes × List Nat := (s.oracle, s.watcherLocal)
 @[simp] theorem ow_initInotify (s : State) : ow (initInotify s) = ow s := by
   unfold initInotify; split; · rfl
   simp; rfl
-@[simp] theorem ow_workSubmit (s : State) : ow (workSubmit s) = ow s := by
-  unfold workSubmit; simp only; split <;> rfl
+@[simp] theorem ow_workSubmit (s : State) (api : Api) : ow (workSubmit s api) = ow s := by
+  unfold workSubmit; simp only; split
+  · split
+    · rfl
+    · rw [ow_asyncSend]; rfl
+  · rfl
+@[simp] theorem ow_ringInit (s : State) : ow (ringInit s) = ow s := by
+  unfold ringInit; split <;> rfl
+@[simp] theorem ow_submit (s : State) (api : Api) : ow (submit s api) = ow s := by
+  unfold submit; simp only; split
+  · split
+    · unfold ringSubmit; simp only; exact ow_ringInit s
+    · rw [ow_workSubmit, ow_ringInit]
+  · rw [ow_workSubmit]
 @[simp] theorem ow_workCancel (s : State) (r : Nat) : ow (workCancel s r).1 = ow s := by
   unfold workCancel; split
   · simp; rfl
@@ -387,6 +399,12 @@ theorem workDone_ext {s0 : State} (sc : Script) (s : State) (hi : Ext .poll s0 s
   unfold workDone
   exact workDoneLoop_ext _ _ _ (hi.upd rfl rfl)
 
+theorem ringDone_ext {s0 : State} (sc : Script) (cq : List Nat) (s : State) (hi : Ext .poll s0 s) :
+    Ext .poll s0 (ringDone sc cq s) := by
+  unfold ringDone
+  exact workDoneLoop_ext _ _ _ (hi.upd (ringTake_frame (·.trace) (fun _ _ _ => rfl) s cq)
+    (ringTake_frame (·.oracle) (fun _ _ _ => rfl) s cq))
+
 theorem asyncIoLoop_ext {s0 : State} (sc : Script) (fuel : Nat) (s : State) (hi : Ext .poll s0 s) :
     Ext .poll s0 (asyncIoLoop sc fuel s) := by
   induction fuel generalizing s with
@@ -446,6 +464,9 @@ theorem dispatchLoop_ext {s0 : State} (sc : Script) (fuel : Nat) (s : State) (n 
             · apply pollIo_ext; exact h0 _
             · apply udpIo_ext; exact h0 _
             · exact h0 _
+      · split
+        · apply ih; apply ringDone_ext; exact h0 _
+        · apply ih; exact h0 _
 
 theorem finishClose_ext {s0 : State} (sc : Script) (id : Nat) (s : State) (hi : Ext .closing s0 s) :
     Ext .closing s0 (finishClose sc id s) := by
